@@ -191,12 +191,25 @@ def run_case(case) -> Outcome:
     out.check(ok_w, "krum-weights", f"weights {w.tolist()} are not 1/{k} on exactly {k} rows")
     if ok_w:
         scores = refs.krum_scores(J, f)
+        # Scores that are not representable in the dtype: a squared distance above max(dtype) is inf in the implementation's
+        # arithmetic, so every score that includes it is inf and such scores TIE (any tie-break is accepted, as for exact
+        # ties). Squared distances within a factor 4 of the overflow level are ambiguous: those rows are not constrained.
+        fmax = float(torch.finfo(getattr(torch, dtype)).max)
+        d2 = np.stack([((J - J[i]) ** 2).sum(-1) for i in range(m)])
+        overflow, ambiguous = np.zeros(m, bool), np.zeros(m, bool)
+        for i in range(m):
+            inc = np.sort(np.delete(d2[i], i))[: m - f - 2]
+            overflow[i] = bool((inc > 4 * fmax).any())
+            ambiguous[i] = bool((inc > 0.25 * fmax).any()) and not overflow[i]
+        scores = np.where(overflow | ambiguous, np.inf, scores)
+        if overflow.any() or ambiguous.any():
+            out.cls("krum-scores-overflow-the-dtype")
         kth = np.sort(scores)[k - 1]
         # differences of nearby floats are exact (Sterbenz), so distances computed from differences carry only
         # (n+2) eps relative error whatever common offset the rows share
         tol = 50 * (n + m) * eps
         must = set(np.nonzero(scores < kth * (1 - tol))[0].tolist())
-        may_not = set(np.nonzero(scores > kth * (1 + tol))[0].tolist())
+        may_not = set(np.nonzero((scores > kth * (1 + tol)) & ~ambiguous)[0].tolist()) if np.isfinite(kth) else set()
         S = set(sel.tolist())
         out.check(must <= S and not (S & may_not), "krum-selection",
                   f"selected {sorted(S)}; reference scores {scores.tolist()} (f={f}, k={k})")
